@@ -1,1 +1,540 @@
-fn main() {}
+//! C33 — CLI check mode succeeds exactly when the outputs are up to date, reports
+//! line-ending-only differences as such, and never writes.
+//!
+//! The real `wit-bindgen` binary is built from the working tree (own target dir). For a few
+//! small worlds × every backend the output directory is put into every state of
+//! {identical, missing, altered byte, appended byte, LF→CRLF}^k over k chosen generated files
+//! (plus "unrelated extra file present"), `wit-bindgen <backend> .. --check` is run on it, and
+//! compared with an oracle that does not share the check branch: *really generating* into a copy
+//! of the same directory — check must exit 0 iff that generation changes no byte and adds no
+//! file. The directory (names, bytes, mtimes) must be untouched by `--check`.
+
+use e7_gen::backends;
+use e7_gen::shim;
+use serde_json::{json, Value};
+use std::collections::{BTreeMap, BTreeSet};
+use std::path::{Path, PathBuf};
+use std::process::Command;
+use std::time::{Duration, SystemTime};
+use vcommon::Run;
+
+#[derive(Clone, Copy, Debug, PartialEq, Eq, PartialOrd, Ord)]
+enum St {
+    Identical,
+    Missing,
+    AlteredByte,
+    Appended,
+    Crlf,
+}
+const STATES: [St; 5] = [St::Identical, St::Missing, St::AlteredByte, St::Appended, St::Crlf];
+
+impl St {
+    fn name(self) -> &'static str {
+        match self {
+            St::Identical => "identical",
+            St::Missing => "missing",
+            St::AlteredByte => "altered-byte",
+            St::Appended => "appended-byte",
+            St::Crlf => "crlf",
+        }
+    }
+    fn parse(s: &str) -> St {
+        *STATES.iter().find(|x| x.name() == s).unwrap_or_else(|| vcommon::machinery(&format!("bad state {s}")))
+    }
+}
+
+fn worlds(thorough: bool) -> Vec<(&'static str, &'static str)> {
+    let mut v = vec![
+        (
+            "funcs",
+            "package t:c33;\n\nworld w {\n  import f: func(x: u32) -> string;\n  export g: func(a: list<u8>) -> string;\n}\n",
+        ),
+        (
+            "exported-resource",
+            "package t:c33;\n\ninterface i {\n  record r {\n    a: u32,\n    b: string,\n  }\n  resource thing {\n    constructor(a: u32);\n    get: func() -> r;\n  }\n  f: func(x: r) -> option<r>;\n}\n\nworld w {\n  export i;\n}\n",
+        ),
+        (
+            "two-interfaces",
+            "package t:c33;\n\ninterface a {\n  enum e {\n    x,\n    y,\n  }\n  variant v {\n    n,\n    s(string),\n  }\n  f: func(e: e) -> v;\n}\n\ninterface b {\n  use a.{e};\n  flags fl {\n    p,\n    q,\n  }\n  g: func(x: list<e>, y: fl) -> result<u64, string>;\n}\n\nworld w {\n  import a;\n  import b;\n  export b;\n  export run: func();\n}\n",
+        ),
+    ];
+    if thorough {
+        v.push((
+            "imported-resource",
+            "package t:c33;\n\ninterface i {\n  resource thing {\n    constructor(a: u32);\n    get: func() -> tuple<u32, option<string>>;\n    make: static func() -> thing;\n  }\n  f: func(x: borrow<thing>) -> own<thing>;\n}\n\nworld w {\n  import i;\n  export h: func(x: f32) -> f64;\n}\n",
+        ));
+        v.push(("empty", "package t:c33;\n\nworld w {\n}\n"));
+    }
+    v
+}
+
+type Snapshot = BTreeMap<String, (bool, Vec<u8>, u128)>;
+
+fn snapshot(dir: &Path) -> Snapshot {
+    fn walk(root: &Path, d: &Path, out: &mut Snapshot) {
+        let md = std::fs::metadata(d).unwrap();
+        let mt = md.modified().unwrap().duration_since(SystemTime::UNIX_EPOCH).unwrap().as_nanos();
+        let rel = d.strip_prefix(root).unwrap().to_string_lossy().into_owned();
+        out.insert(format!("{rel}/"), (true, vec![], mt));
+        let mut es: Vec<_> = std::fs::read_dir(d).unwrap().filter_map(|e| e.ok()).collect();
+        es.sort_by_key(|e| e.file_name());
+        for e in es {
+            let p = e.path();
+            if p.is_dir() {
+                walk(root, &p, out);
+            } else {
+                let md = std::fs::metadata(&p).unwrap();
+                let mt = md.modified().unwrap().duration_since(SystemTime::UNIX_EPOCH).unwrap().as_nanos();
+                let rel = p.strip_prefix(root).unwrap().to_string_lossy().into_owned();
+                out.insert(rel, (false, std::fs::read(&p).unwrap(), mt));
+            }
+        }
+    }
+    let mut out = Snapshot::new();
+    walk(dir, dir, &mut out);
+    out
+}
+
+fn files_of(s: &Snapshot) -> BTreeMap<String, Vec<u8>> {
+    s.iter().filter(|(_, v)| !v.0).map(|(k, v)| (k.clone(), v.1.clone())).collect()
+}
+
+/// give everything an old, fixed mtime so that any write is visible
+fn age(dir: &Path) {
+    let t = SystemTime::UNIX_EPOCH + Duration::from_secs(1_000_000_000);
+    fn walk(d: &Path, t: SystemTime) {
+        for e in std::fs::read_dir(d).unwrap().filter_map(|e| e.ok()) {
+            let p = e.path();
+            if p.is_dir() {
+                walk(&p, t);
+            } else {
+                std::fs::File::options().write(true).open(&p).unwrap().set_modified(t).unwrap();
+            }
+        }
+        std::fs::File::open(d).unwrap().set_modified(t).unwrap();
+    }
+    walk(dir, t);
+}
+
+fn write_tree(dir: &Path, files: &BTreeMap<String, Vec<u8>>) {
+    let _ = std::fs::remove_dir_all(dir);
+    std::fs::create_dir_all(dir).unwrap();
+    for (name, bytes) in files {
+        let p = dir.join(name);
+        std::fs::create_dir_all(p.parent().unwrap()).unwrap();
+        std::fs::write(p, bytes).unwrap();
+    }
+}
+
+fn mutate(bytes: &[u8], st: St) -> Option<Vec<u8>> {
+    match st {
+        St::Identical => Some(bytes.to_vec()),
+        St::Missing => None,
+        St::AlteredByte => {
+            let mut b = bytes.to_vec();
+            // first byte that is not part of a line ending
+            match b.iter().position(|c| *c != b'\n' && *c != b'\r') {
+                Some(i) => b[i] = if b[i] == b'#' { b'$' } else { b'#' },
+                None => b.push(b'#'),
+            }
+            Some(b)
+        }
+        St::Appended => {
+            let mut b = bytes.to_vec();
+            b.push(b'x');
+            Some(b)
+        }
+        St::Crlf => {
+            let mut b = Vec::with_capacity(bytes.len() + 64);
+            for c in bytes {
+                if *c == b'\n' {
+                    b.push(b'\r');
+                }
+                b.push(*c);
+            }
+            Some(b)
+        }
+    }
+}
+
+struct Cli {
+    bin: PathBuf,
+    so: PathBuf,
+}
+
+impl Cli {
+    fn run(&self, backend: &str, args: &[&str], wit: &Path, out: &Path, check: bool, cwd: &Path) -> (i32, String) {
+        let mut cmd = Command::new(&self.bin);
+        cmd.arg(backend).args(args).arg("--out-dir").arg(out).arg(wit).current_dir(cwd);
+        if check {
+            cmd.arg("--check");
+        }
+        cmd.env_remove("RUST_LOG").env_remove("RUST_BACKTRACE");
+        shim::seeded(&mut cmd, &self.so, 0);
+        let o = cmd.output().unwrap_or_else(|e| vcommon::machinery(&format!("cannot run {:?}: {e}", self.bin)));
+        (o.status.code().unwrap_or(-1), String::from_utf8_lossy(&o.stderr).into_owned())
+    }
+}
+
+fn build_cli() -> (PathBuf, f64) {
+    let repo = vcommon::repo_root();
+    let target = format!("{}/target/cli-{:016x}", vcommon::verif_root(), vcommon::fnv(repo.as_bytes()));
+    let t0 = std::time::Instant::now();
+    let out = Command::new("cargo")
+        .args(["build", "--release", "--offline", "--manifest-path"])
+        .arg(format!("{repo}/Cargo.toml"))
+        .current_dir(&repo)
+        .env("CARGO_TARGET_DIR", &target)
+        .env_remove("RUSTFLAGS")
+        .env_remove("CARGO_ENCODED_RUSTFLAGS")
+        .env_remove("CARGO_BUILD_RUSTFLAGS")
+        .output()
+        .unwrap_or_else(|e| vcommon::machinery(&format!("cannot run cargo: {e}")));
+    if !out.status.success() {
+        let err = String::from_utf8_lossy(&out.stderr);
+        let tail: Vec<&str> = err.lines().rev().take(30).collect();
+        vcommon::machinery(&format!(
+            "building the wit-bindgen CLI from {repo} failed:\n{}",
+            tail.into_iter().rev().collect::<Vec<_>>().join("\n")
+        ));
+    }
+    let bin = PathBuf::from(format!("{target}/release/wit-bindgen"));
+    if !bin.exists() {
+        vcommon::machinery(&format!("{bin:?} missing after build"));
+    }
+    (bin, t0.elapsed().as_secs_f64())
+}
+
+fn is_text(b: &[u8]) -> bool {
+    match std::str::from_utf8(b) {
+        Ok(s) => !s.chars().any(|c| c.is_control() && !matches!(c, '\n' | '\r' | '\t')),
+        Err(_) => false,
+    }
+}
+
+fn strip_cr(b: &[u8]) -> Vec<u8> {
+    let mut o = Vec::with_capacity(b.len());
+    for (i, c) in b.iter().enumerate() {
+        if *c == b'\r' && b.get(i + 1) == Some(&b'\n') {
+            continue;
+        }
+        o.push(*c);
+    }
+    o
+}
+
+/// One directory state: returns (violations [(kind, message)], facts)
+fn explore_state(
+    cli: &Cli,
+    backend: &str,
+    args: &[&str],
+    wit: &Path,
+    work: &Path,
+    baseline: &BTreeMap<String, Vec<u8>>,
+    assignment: &[(String, St)],
+    extra_file: bool,
+) -> (Vec<(String, String)>, Value) {
+    // ---- build the directory state
+    let mut files = baseline.clone();
+    for (name, st) in assignment {
+        match mutate(&baseline[name], *st) {
+            Some(b) => {
+                files.insert(name.clone(), b);
+            }
+            None => {
+                files.remove(name);
+            }
+        }
+    }
+    if extra_file {
+        files.insert("zz-unrelated-notes.txt".into(), b"not generated by wit-bindgen\n".to_vec());
+    }
+    let case = work.join("case");
+    let copy = work.join("copy");
+    write_tree(&case, &files);
+    write_tree(&copy, &files);
+    age(&case);
+    age(&copy);
+    // ---- oracle: what would a real generation do to this directory?
+    let before_copy = files_of(&snapshot(&copy));
+    let (grc, gerr) = cli.run(backend, args, wit, &copy, false, work);
+    if grc != 0 {
+        vcommon::machinery(&format!("generation into a prepared directory failed for {backend}: {gerr}"));
+    }
+    let after_copy = files_of(&snapshot(&copy));
+    let changed: Vec<String> = after_copy
+        .iter()
+        .filter(|(n, b)| before_copy.get(*n) != Some(b))
+        .map(|(n, _)| n.clone())
+        .collect();
+    let up_to_date = changed.is_empty();
+    let crlf_only: Vec<bool> = changed
+        .iter()
+        .map(|n| match before_copy.get(n) {
+            Some(old) => {
+                let new = &after_copy[n];
+                old != new && is_text(old) && is_text(new) && &strip_cr(old) == new
+            }
+            None => false,
+        })
+        .collect();
+    // ---- the transition under test
+    let snap0 = snapshot(&case);
+    let (rc, err) = cli.run(backend, args, wit, &case, true, work);
+    let snap1 = snapshot(&case);
+    let mut v = Vec::new();
+    let last = err.lines().last().unwrap_or("").to_string();
+    if rc == 0 && !up_to_date {
+        v.push((
+            "check-passed-but-outputs-stale".to_string(),
+            format!("--check exits 0 although generating for real would write {changed:?}"),
+        ));
+    }
+    if rc != 0 && up_to_date {
+        v.push((
+            "check-failed-but-outputs-up-to-date".to_string(),
+            format!("--check exits {rc} ({last}) although generating for real changes nothing"),
+        ));
+    }
+    if snap0 != snap1 {
+        let diff: Vec<&String> = snap1
+            .keys()
+            .chain(snap0.keys())
+            .filter(|k| snap0.get(*k) != snap1.get(*k))
+            .collect::<BTreeSet<_>>()
+            .into_iter()
+            .collect();
+        v.push((
+            "check-modified-directory".to_string(),
+            format!("--check created/modified/touched {diff:?}"),
+        ));
+    }
+    let mentions = err.to_lowercase().contains("line ending") || err.contains("CRLF");
+    if rc != 0 && !changed.is_empty() {
+        if crlf_only.iter().all(|x| *x) && !mentions {
+            v.push((
+                "crlf-only-difference-not-reported-as-such".to_string(),
+                format!("only line endings differ in {changed:?} but the message is: {last}"),
+            ));
+        }
+        if crlf_only.iter().all(|x| !*x) && mentions {
+            v.push((
+                "difference-misreported-as-line-endings".to_string(),
+                format!("no file differs only in line endings ({changed:?}) but the message is: {last}"),
+            ));
+        }
+    }
+    let facts = json!({"exit": rc, "up_to_date": up_to_date, "would_write": changed, "message": last,
+                       "crlf_only": !crlf_only.is_empty() && crlf_only.iter().all(|x| *x)});
+    (v, facts)
+}
+
+fn choose(names: &[String], k: usize) -> Vec<String> {
+    let n = names.len();
+    let mut idx = vec![0usize, n.saturating_sub(1), n / 2];
+    idx.dedup();
+    let mut out: Vec<String> = Vec::new();
+    for i in idx {
+        if out.len() < k && i < n && !out.contains(&names[i]) {
+            out.push(names[i].clone());
+        }
+    }
+    out
+}
+
+fn main() {
+    let mut run = Run::from_args("C33", "model_checking");
+    let (bin, build_s) = build_cli();
+    let tmp = std::env::temp_dir().join(format!("e7-c33-{}", std::process::id()));
+    let _ = std::fs::remove_dir_all(&tmp);
+    std::fs::create_dir_all(&tmp).unwrap();
+    let so = shim::build(&tmp);
+    let cli = Cli { bin, so };
+    let bvs: Vec<backends::Bv> = backends::all_bvs().into_iter().filter(|b| b.variant.is_empty()).collect();
+    let k = run.pick(2usize, 3);
+    let ws = worlds(run.thorough() || run.replay.is_some());
+
+    // ---- replay --------------------------------------------------------------------------
+    if let Some(d) = run.replay_detail() {
+        let backend = d["backend"].as_str().unwrap().to_string();
+        let bv = bvs.iter().find(|b| b.backend == backend).unwrap();
+        let work = tmp.join("replay");
+        std::fs::create_dir_all(&work).unwrap();
+        let wit = work.join("world.wit");
+        std::fs::write(&wit, d["wit_text"].as_str().unwrap()).unwrap();
+        let base = work.join("base");
+        std::fs::create_dir_all(&base).unwrap();
+        let (rc, err) = cli.run(&backend, &bv.args, &wit, &base, false, &work);
+        if rc != 0 {
+            vcommon::machinery(&format!("baseline generation failed: {err}"));
+        }
+        let baseline = files_of(&snapshot(&base));
+        let assignment: Vec<(String, St)> = d["assignment"]
+            .as_array()
+            .unwrap()
+            .iter()
+            .map(|a| (a[0].as_str().unwrap().to_string(), St::parse(a[1].as_str().unwrap())))
+            .collect();
+        let (v, facts) = explore_state(&cli, &backend, &bv.args, &wit, &work, &baseline, &assignment, d["extra_file"].as_bool().unwrap_or(false));
+        println!("state {assignment:?} extra_file={}: {facts}", d["extra_file"]);
+        for (kind, msg) in &v {
+            println!("REPLAY: {kind}: {msg}");
+        }
+        let _ = std::fs::remove_dir_all(&tmp);
+        std::process::exit(if v.is_empty() { 0 } else { 1 })
+    }
+
+    // ---- explore ---------------------------------------------------------------------------
+    let pairs: Vec<(usize, usize)> = (0..ws.len()).flat_map(|w| (0..bvs.len()).map(move |b| (w, b))).collect();
+    let results = vcommon::par_map(pairs.len(), vcommon::ncpu(), |i| {
+        let (wi, bi) = pairs[i];
+        let (wname, wtext) = ws[wi];
+        let bv = &bvs[bi];
+        let work = tmp.join(format!("{wname}-{}", bv.backend));
+        std::fs::create_dir_all(&work).unwrap();
+        let wit = work.join("world.wit");
+        std::fs::write(&wit, wtext).unwrap();
+        let base = work.join("base");
+        std::fs::create_dir_all(&base).unwrap();
+        let (rc, err) = cli.run(bv.backend, &bv.args, &wit, &base, false, &work);
+        if rc != 0 {
+            return json!({"w": wi, "b": bi, "skipped": err.lines().last().unwrap_or("").to_string()});
+        }
+        let baseline = files_of(&snapshot(&base));
+        let names: Vec<String> = baseline.keys().cloned().collect();
+        let chosen = choose(&names, k);
+        // all |STATES|^|chosen| assignments
+        let mut assignments: Vec<Vec<St>> = vec![vec![]];
+        for _ in 0..chosen.len() {
+            assignments = assignments
+                .into_iter()
+                .flat_map(|a| STATES.iter().map(move |s| { let mut a = a.clone(); a.push(*s); a }))
+                .collect();
+        }
+        let mut cases: Vec<(Vec<(String, St)>, bool)> = assignments
+            .into_iter()
+            .map(|a| (chosen.iter().cloned().zip(a).collect(), false))
+            .collect();
+        // "extra unrelated file present": with everything identical, and with the first file missing
+        cases.push((chosen.iter().cloned().map(|n| (n, St::Identical)).collect(), true));
+        if !chosen.is_empty() {
+            let mut a: Vec<(String, St)> = chosen.iter().cloned().map(|n| (n, St::Identical)).collect();
+            a[0].1 = St::Missing;
+            cases.push((a, true));
+        }
+        let mut out = Vec::new();
+        let mut outcomes: BTreeSet<String> = BTreeSet::new();
+        let mut first_gen_then_check = Value::Null;
+        for (assignment, extra) in &cases {
+            let (v, facts) = explore_state(&cli, bv.backend, &bv.args, &wit, &work, &baseline, assignment, *extra);
+            outcomes.insert(format!("{}|{}|{}", facts["exit"], facts["up_to_date"], facts["crlf_only"]));
+            if assignment.iter().all(|(_, s)| *s == St::Identical) && !extra {
+                first_gen_then_check = facts.clone();
+            }
+            out.push(json!({
+                "assignment": assignment.iter().map(|(n, s)| json!([n, s.name()])).collect::<Vec<_>>(),
+                "extra_file": extra, "facts": facts,
+                "violations": v.iter().map(|(k, m)| json!([k, m])).collect::<Vec<_>>(),
+            }));
+        }
+        let _ = std::fs::remove_dir_all(&work);
+        json!({"w": wi, "b": bi, "files": names, "chosen": chosen, "cases": out,
+               "outcomes": outcomes, "generate_then_check": first_gen_then_check})
+    });
+
+    // ---- aggregate ---------------------------------------------------------------------------
+    let mut states = 0usize;
+    let mut transitions = 0usize;
+    let mut samples = vcommon::Samples::new(12);
+    let mut skipped = Vec::new();
+    let mut outcomes: BTreeSet<String> = BTreeSet::new();
+    let mut gen_then_check_fails = Vec::new();
+    let mut per_pair = Vec::new();
+    struct V { what: String, detail: Value, weight: usize, n: usize }
+    let mut viol: BTreeMap<String, V> = BTreeMap::new();
+    for r in &results {
+        let (wi, bi) = (r["w"].as_u64().unwrap() as usize, r["b"].as_u64().unwrap() as usize);
+        let backend = bvs[bi].backend;
+        if let Some(s) = r.get("skipped") {
+            skipped.push(json!({"world": ws[wi].0, "backend": backend, "generation_error": s}));
+            continue;
+        }
+        per_pair.push(json!({"world": ws[wi].0, "backend": backend, "generated_files": r["files"], "files_put_through_all_states": r["chosen"], "states": r["cases"].as_array().unwrap().len()}));
+        if r["generate_then_check"]["exit"].as_i64() != Some(0) {
+            gen_then_check_fails.push(json!({"world": ws[wi].0, "backend": backend, "check_after_fresh_generation": r["generate_then_check"]}));
+        }
+        for o in r["outcomes"].as_array().unwrap() {
+            outcomes.insert(o.as_str().unwrap().to_string());
+        }
+        for c in r["cases"].as_array().unwrap() {
+            states += 1;
+            transitions += 1;
+            samples.offer(|| json!({"world": ws[wi].0, "backend": backend, "state": c["assignment"], "extra_file": c["extra_file"], "observed": c["facts"]}));
+            for v in c["violations"].as_array().unwrap() {
+                let kind = v[0].as_str().unwrap();
+                let nonid: BTreeSet<&str> = c["assignment"].as_array().unwrap().iter().map(|a| a[1].as_str().unwrap()).filter(|s| *s != "identical").collect();
+                let mut sig = nonid.into_iter().collect::<Vec<_>>().join("+");
+                if sig.is_empty() {
+                    sig = "all-identical".into();
+                }
+                if c["extra_file"].as_bool() == Some(true) {
+                    sig.push_str("+extra-file");
+                }
+                let key = format!("{backend}:{kind}:{sig}");
+                let weight = c["assignment"].as_array().unwrap().iter().filter(|a| a[1] != "identical").count() * 10 + ws[wi].1.len() / 100;
+                let what = format!(
+                    "`wit-bindgen {backend} --check` on world `{}` with output directory state {} (extra file: {}): {}",
+                    ws[wi].0, c["assignment"], c["extra_file"], v[1].as_str().unwrap()
+                );
+                let detail = json!({"backend": backend, "world": ws[wi].0, "wit_text": ws[wi].1, "assignment": c["assignment"],
+                                    "extra_file": c["extra_file"], "observed": c["facts"], "args": bvs[bi].args});
+                let e = viol.entry(key).or_insert(V { what: what.clone(), detail: detail.clone(), weight, n: 0 });
+                e.n += 1;
+                if weight < e.weight {
+                    e.weight = weight;
+                    e.what = what;
+                    e.detail = detail;
+                }
+            }
+        }
+    }
+    for (key, v) in &viol {
+        let mut d = v.detail.clone();
+        d["states_with_this_key"] = json!(v.n);
+        run.violation(key, &v.what, d);
+    }
+    if states < 100 {
+        vcommon::machinery(&format!("only {states} directory states explored"));
+    }
+    let coverage = json!({
+        "states": states,
+        "transitions": transitions,
+        "traces_validated_against_impl": states,
+        "evaluations": transitions * 2,
+        "exhaustive": true,
+        "state_alphabet_per_file": STATES.iter().map(|s| s.name()).collect::<Vec<_>>(),
+        "k_files_put_through_every_state": k,
+        "extra_cases": ["unrelated extra file + all identical", "unrelated extra file + first file missing"],
+        "worlds": ws.iter().map(|w| w.0).collect::<Vec<_>>(),
+        "backends": bvs.iter().map(|b| json!({"backend": b.backend, "args": b.args})).collect::<Vec<_>>(),
+        "pairs": per_pair,
+        "pairs_skipped_generation_failed": skipped,
+        "distinct_outcomes": outcomes.len(),
+        "distinct_outcome_classes_exit_uptodate_crlfonly": outcomes,
+        "generate_then_check_fails_without_any_edit": gen_then_check_fails,
+        "oracle": "`--check` exits 0 ⇔ really generating into a copy of the same directory changes no byte and creates no file; if every file such a generation would rewrite differs only by CR before LF (and is text) the message must mention line endings, if none does it must not; names, bytes and mtimes of the checked directory (recursively, directories included) are identical before and after `--check`",
+        "cli_build_s_not_part_of_the_budget": (build_s * 10.0).round() / 10.0,
+        "hash_seed": "every CLI process runs with the getrandom shim and VERIF_HASH_SEED=0, so MoonBit's seed-dependent output order (C15) cannot blur this check",
+        "samples": samples.items,
+    });
+    let _ = std::fs::remove_dir_all(&tmp);
+    run.finish(
+        coverage,
+        vec![
+            "\"every file it would generate\" is read per directory state: the C++ generator emits `<class>.h.template` instead of `<class>.h` when the latter exists, so the expected verdict comes from a real generation into a copy of the same directory, not from the first generation's file list".into(),
+            "all processes share hash seed 0 (LD_PRELOAD shim); nondeterminism across seeds is C15's subject".into(),
+            "only the default option set of each backend is used (check mode is option-independent code in src/bin/wit-bindgen.rs)".into(),
+            "the altered/appended states change one byte; a removed final newline is not in the alphabet".into(),
+        ],
+    )
+}
